@@ -29,6 +29,9 @@ pub struct Env {
     pub known: BTreeSet<String>,
     pub quantity_dims: BTreeMap<String, Dims>,
     pub by_dims: BTreeMap<Dims, Vec<String>>,
+    /// the category each name is defined in, read from the definitions file itself (a base unit's
+    /// long name belongs where the base unit is defined)
+    pub file_category: BTreeMap<String, BTreeSet<String>>,
 }
 
 pub fn mk_env(known: BTreeSet<String>) -> Env {
@@ -43,11 +46,40 @@ pub fn mk_env(known: BTreeSet<String>) -> Env {
     for (n, v) in &ctx.registry.units {
         by_dims.entry(rinkx::dims_of(v)).or_default().push(n.clone());
     }
+    let mut file_category: BTreeMap<String, BTreeSet<String>> = BTreeMap::new();
+    {
+        let mut parsed = vec![];
+        let _ = crate::props::c08::capture_stdout(|| parsed = rink_core::loader::gnu_units::parse_str(rink_core::DEFAULT_FILE.unwrap_or("")).defs);
+        for e in &parsed {
+            if let Some(c) = &e.category {
+                match &*e.def {
+                    rink_core::ast::Def::Unit { .. } | rink_core::ast::Def::Substance { .. } => {
+                        file_category.entry(e.name.clone()).or_default().insert(c.clone());
+                    }
+                    rink_core::ast::Def::BaseUnit { long_name } => {
+                        file_category.entry(e.name.clone()).or_default().insert(c.clone());
+                        if let Some(l) = long_name {
+                            file_category.entry(l.clone()).or_default().insert(c.clone());
+                        }
+                    }
+                    rink_core::ast::Def::Prefix { is_long: true, .. } => {
+                        // the loader deliberately keeps categories for units only ("for now, only
+                        // allow units to have categories"): a long prefix listed as a unit may be
+                        // uncategorised or under the category it is defined in
+                        file_category.entry(e.name.clone()).or_default().insert(c.clone());
+                        file_category.entry(e.name.clone()).or_default().insert(String::new());
+                    }
+                    _ => {}
+                }
+            }
+        }
+    }
     Env {
         ctx,
         known,
         quantity_dims,
         by_dims,
+        file_category,
     }
 }
 
@@ -128,8 +160,13 @@ pub fn check(env: &Env, c: &Case, st: &mut Stats) -> CaseResult {
                     for n in &g.units {
                         flat.push(n.clone());
                         // grouped under its own category
-                        let expect_cat = r.categories.get(n).and_then(|id| r.category_names.get(id)).cloned();
-                        if g.category != expect_cat {
+                        // a name defined twice (a long prefix and a unit, say) may be under either category
+                        let expect_cats: Vec<Option<String>> = match env.file_category.get(n) {
+                            Some(ids) => ids.iter().map(|id| r.category_names.get(id).cloned()).collect(),
+                            None => vec![None],
+                        };
+                        let expect_cat = expect_cats.first().cloned().flatten();
+                        if !expect_cats.contains(&g.category) {
                             return fail(
                                 env,
                                 st,
